@@ -229,6 +229,7 @@ fn dispatch(name: &str, a: &Args) -> bool {
     "c14_struct" => c14::p_c14_struct(a.u8("depth"), a.u8("delta"), a.u64("hash"), a.u64("c")),
     "c14_guard" => c14::p_c14_guard(a.u8("depth"), a.u8("delta"), a.u64("hash"), a.u8("which")),
     "bmoc_views" => c07::p_bmoc_views(a.u8("view"), &ops(a, "a", a.u64("na") as usize), a.u64("c"), a.u32("k")),
+    "fixed_merge" => c07::p_fixed_merge(a.u8("depth"), a.bool("is_full"), a.u8("d0"), a.u64("h0"), a.u64("p0"), a.u64("c")),
     "fixed_builder" => c07::p_fixed_builder(a.u8("depth"), a.bool("is_full"), a.u64("cap") as usize, a.u64("m") as usize, a.u64("p0"), a.u64("p1"), a.u64("p2"), a.u64("p3"), a.u64("c")),
     "c01_all_depths" => c01::p_c01_search(a.f64("lon"), a.f64("lat")),
     "c01_point" => c01::p_c01_point(a.u8("depth"), a.f64("lon"), a.f64("lat")),
